@@ -6,9 +6,13 @@ from typing import Any
 from .model_ac import ACState
 
 
-def set_attrs(ac, s: dict) -> None:
-    """Set every settable public attribute of an AirConditioner from a settable-state dict."""
+def set_attrs(ac, s: dict, forms: str = "") -> None:
+    """Set every settable public attribute of an AirConditioner from a settable-state dict.  forms="plain": the caller hands over
+    plain Python numbers - an integral setpoint as int (example.py does), switches as 1/0 - instead of float / bool."""
     from msmart.device import AirConditioner as AC
+    if forms == "plain":
+        s = dict(s, target=int(s["target"]) if float(s["target"]).is_integer() else s["target"],
+                 **{k: int(s[k]) for k in ("power", "eco", "turbo", "sleep", "fahrenheit", "freeze", "follow_me", "purifier")})
     ac.power_state = s["power"]
     ac.operational_mode = AC.OperationalMode(s["mode"]) if s["mode"] in (1, 2, 3, 4, 5, 6) else s["mode"]
     ac.target_temperature = s["target"]
